@@ -234,6 +234,8 @@ struct Norm<'a> {
     opt_map: bool,
     dropnote: Option<String>,
     selfty: Option<String>,
+    skip_sort: bool,
+    subst: Option<(String, String)>,
 }
 
 impl<'a> Norm<'a> {
@@ -617,6 +619,39 @@ impl<'a> VisitMut for Norm<'a> {
                     continue;
                 }
             }
+            // N12: `let mut v: Vec<_> = SET.into_iter().map(|c| Tag(c)).collect(); v.sort_by_key(|t| t.0);`
+            //      ==> `let mut v: Vec<_> = v_sorted_tags(SET);`   (iterator adapters are outside Verus; trusted stub T7)
+            if let Stmt::Local(l) = &s {
+                if let Some(init) = &l.init {
+                    if let Expr::MethodCall(col) = &*init.expr {
+                        if col.method == "collect" {
+                            if let Expr::MethodCall(mp) = &*col.receiver {
+                                if mp.method == "map" {
+                                    if let Expr::MethodCall(ii) = &*mp.receiver {
+                                        if ii.method == "into_iter" {
+                                            let set = &ii.receiver;
+                                            let pat = &l.pat;
+                                            new.push(parse_quote!(let #pat = v_sorted_tags(#set);));
+                                            self.stats.bump("N12.sorted_tags");
+                                            self.skip_sort = true;
+                                            continue;
+                                        }
+                                    }
+                                }
+                            }
+                        }
+                    }
+                }
+            }
+            if self.skip_sort {
+                if let Stmt::Expr(Expr::MethodCall(mc), Some(_)) = &s {
+                    if mc.method == "sort_by_key" {
+                        self.skip_sort = false;
+                        continue;
+                    }
+                }
+                die("unsupported", &format!("N12: expected sort_by_key after the collected tag vector in {}", self.desc));
+            }
             // tokio::pin!(x): pinning has no effect on sequential semantics
             if let Stmt::Macro(sm) = &s {
                 if path_last(&sm.mac.path) == "pin" {
@@ -760,6 +795,20 @@ impl<'a> VisitMut for Norm<'a> {
                 }
             }
         }
+        // a materialised trait default body inside an impl that fixes a trait type parameter: `E` -> the impl's type
+        if let Some((from, to)) = &self.subst {
+            if p.leading_colon.is_none() && !p.segments.is_empty() && p.segments[0].ident == from.as_str() && p.segments[0].arguments.is_none() {
+                let newp: syn::Path = syn::parse_str(to).unwrap_or_else(|_| die("template", "bad subst path"));
+                let rest: Vec<syn::PathSegment> = p.segments.iter().skip(1).cloned().collect();
+                let mut segs = newp.segments.clone();
+                for r in rest {
+                    segs.push(r);
+                }
+                p.segments = segs;
+                p.leading_colon = newp.leading_colon;
+                self.stats.bump("N15.type_param_instantiated");
+            }
+        }
         visit_mut::visit_path_mut(self, p);
     }
 
@@ -810,7 +859,7 @@ impl<'a> VisitMut for Norm<'a> {
 /// Returns the number of loops found (pre-order numbering).
 pub fn normalise(block: &mut syn::Block, opts: &BTreeMap<String, String>, stats: &mut Stats, desc: &str) -> usize {
     let deref_idents = opts.get("n3").map(|s| s.split(',').map(|x| x.to_string()).collect()).unwrap_or_default();
-    let mut n = Norm { stats, desc, loops: 0, tmp: 0, closure_args: 0, deref_idents, keep_async: false, yieldctx: opts.get("yieldctx").cloned(), opt_map: opts.contains_key("optmap"), dropnote: opts.get("dropnote").cloned(), selfty: opts.get("selfty").cloned() };
+    let mut n = Norm { stats, desc, loops: 0, tmp: 0, closure_args: 0, deref_idents, keep_async: false, yieldctx: opts.get("yieldctx").cloned(), opt_map: opts.contains_key("optmap"), dropnote: opts.get("dropnote").cloned(), selfty: opts.get("selfty").cloned(), skip_sort: false, subst: opts.get("subst").and_then(|v| v.split_once(':').map(|(a, b)| (a.to_string(), b.replace('~', "::")))) };
     n.visit_block_mut(block);
     n.loops
 }
